@@ -39,13 +39,13 @@ class Opaque:
     def __eq__(self, other): return isinstance(other, Opaque) and other.n == self.n
     def __hash__(self): return hash(self.n)
 
-KINDS = ["bool", "int", "float", "str", "date", "datetime", "timedelta", "bytes", "object", "mixed"]
+KINDS = ["bool", "int", "float", "str", "date", "datetime", "timedelta", "bytes", "object", "mixed", "datetime_ns"]
 NA_TOKENS = ["None", "nan", "npnan", "nat"]
 
 def generate(rng, tier):
     kind = rng.choice(KINDS)
     n = rng.choice([0, 1, 2, 3, rng.randint(3, 12), rng.randint(3, 12)])
-    flavour = rng.choice(["python", "python", "numpy"]) if kind in ("bool", "int", "float", "str", "date", "datetime", "timedelta") else "python"
+    flavour = rng.choice(["python", "python", "numpy", "both"]) if kind in ("bool", "int", "float", "str", "date", "datetime", "timedelta") else "python"
     container = rng.choice(["list", "list", "tuple", "generator", "ndarray_object"])
     na_pat = rng.choice(["none", "none", "some", "first", "last", "all"])
     if kind == "mixed":
@@ -54,6 +54,10 @@ def generate(rng, tier):
         vals = [v if not isinstance(v, (list, tuple, dict)) else "obj" for v in vals]
     elif kind == "object":
         vals = [rng.choice([Opaque(1), Opaque(2), {"k": 1}, {"k": 2}, frozenset([1])]) for _ in range(n)]
+    elif kind == "datetime_ns":
+        # nanosecond instants (NumPy scalars) with digits below the microsecond; dataiter keeps the unit it is given
+        flavour = "numpy"
+        vals = [rng.choice(gen.DATETIMES) for _ in range(n)]
     else:
         p = gen.pool(rng, kind, 0.3)
         if kind == "str" and rng.random() < 0.3:
@@ -63,7 +67,7 @@ def generate(rng, tier):
         vals = [rng.choice(p) for _ in range(n)]
     # The statement maps None and NaN to missing; NaT is the datetime flavour of NaN and is only used among dates/datetimes.
     na_token = rng.choice(["None", "None", "nan", "npnan"])
-    if kind in ("date", "datetime"):
+    if kind in ("date", "datetime", "datetime_ns"):
         na_token = rng.choice(["None", "nat", "nan", "npnan"])
     marks = [False] * n
     if n:
@@ -79,7 +83,7 @@ def generate(rng, tier):
     if rng.random() < 0.3 and container != "ndarray_object":
         dtype = {"bool": rng.choice(["object"]), "int": rng.choice(["int", "float", "object"]), "float": rng.choice(["float", "object"]),
                  "str": rng.choice(["str", "object"]), "date": rng.choice(["datetime64[D]", "object"]), "datetime": rng.choice(["datetime64[us]", "object"]),
-                 "timedelta": "object", "bytes": "object", "object": "object", "mixed": "object"}[kind]
+                 "timedelta": "object", "bytes": "object", "object": "object", "mixed": "object", "datetime_ns": "datetime64[ns]"}[kind]
     return {"kind": kind, "values": vals, "marks": marks, "na_token": na_token, "flavour": flavour, "container": container, "dtype": dtype}
 
 def _na(token):
@@ -92,6 +96,7 @@ def _np_scalar(kind, v):
     if kind == "str": return np.str_(v)
     if kind == "date": return np.datetime64(v.isoformat(), "D")
     if kind == "datetime": return np.datetime64(v.isoformat(), "us")
+    if kind == "datetime_ns": return np.datetime64(v.isoformat(), "ns") + np.timedelta64(137 + v.second * 7, "ns")
     if kind == "timedelta": return np.timedelta64(v)
     return v
 
@@ -105,7 +110,8 @@ def execute(case):
         if m:
             seq.append(_na(case["na_token"]))
         else:
-            seq.append(_np_scalar(kind, v) if flavour == "numpy" else v)
+            # "both": Python and NumPy scalars of the same kind side by side (values taken partly from an existing vector)
+            seq.append(_np_scalar(kind, v) if flavour == "numpy" or (flavour == "both" and len(seq) % 2 == 0) else v)
     if container == "ndarray_object" and kind in ("mixed",):
         container = "list"
     def make_arg():
@@ -133,7 +139,7 @@ def execute(case):
         res.violate("construct:wrong-shape", f"{ctx} has shape {arr.shape}")
         return res.dict()
     is_string = v.is_string() or arr.dtype.kind == "U"
-    judged_values = kind != "mixed" and not (container == "ndarray_object")
+    judged_values = kind not in ("mixed", "datetime_ns") and not (container == "ndarray_object")
     # ---- NA positions
     try:
         na = np.asarray(v.is_na()).tolist()
@@ -160,7 +166,7 @@ def execute(case):
     if judged_values and any(marks) and not dtype:
         fam = canon.dtype_kind(v)
         want = {"bool": ["object"], "int": ["float"], "float": ["float"], "str": ["string", "ustr"], "date": ["date", "datetime"],
-                "datetime": ["datetime"], "timedelta": ["timedelta"] if flavour == "numpy" else ["object", "timedelta"], "bytes": ["object"], "object": ["object"]}[kind]
+                "datetime": ["datetime"], "datetime_ns": ["datetime"], "timedelta": ["timedelta"] if flavour == "numpy" else ["object", "timedelta"], "bytes": ["object"], "object": ["object"]}[kind]
         if all(marks):
             want = want + ["object", "float", "datetime", "date"]
         if fam not in want:
